@@ -68,6 +68,9 @@ type caseSpec struct {
 	OriginBuf    []int       `json:"-"`
 	AttemptClose bool        `json:"attempt_close,omitempty"`
 	AttemptBody  bool        `json:"attempt_body,omitempty"`
+	// Relay: the origin is reached the way the service reaches it - netio.BidirectionalCopy between the proxy's
+	// pipe end and a transport connection whose Write consumes the caller's slice late (a socket that blocks mid-write).
+	Relay bool `json:"via_relay,omitempty"`
 }
 
 type gen struct {
